@@ -24,6 +24,7 @@ import (
 	"github.com/gcash/bchd/wire"
 	"github.com/gcash/bchutil"
 	"github.com/gcash/bchutil/bloom"
+	"github.com/gcash/bchutil/merkleblock"
 
 	"verif/harness/internal/vh"
 )
@@ -645,9 +646,13 @@ func matchesSet(s itemSet, t absTx) bool {
 // to be inserted" (computed as a fixpoint over positions; independent of block order)
 func relClosure(watch itemSet, flags uint8, txs []absTx, useAlias bool) map[int]bool {
 	rel := map[int]bool{}
+	byID := map[chainhash.Hash][]int{} // positions of every id (duplicates possible)
+	direct := make([]bool, len(txs))
 	for i, t := range txs {
+		byID[t.id] = append(byID[t.id], i)
 		if matchesSet(watch, t) {
 			rel[i] = true
+			direct[i] = true
 		}
 	}
 	for changed := true; changed; {
@@ -657,13 +662,14 @@ func relClosure(watch itemSet, flags uint8, txs []absTx, useAlias bool) map[int]
 				continue
 			}
 			for _, in := range t.ins {
-				for j, p := range txs {
-					if !rel[j] || p.id != in.prevHash || int(in.prevIdx) >= len(p.outs) {
+				for _, j := range byID[in.prevHash] {
+					p := txs[j]
+					if !rel[j] || int64(in.prevIdx) >= int64(len(p.outs)) {
 						continue
 					}
 					o := p.outs[in.prevIdx]
 					hot := !o.err && watch.hasAny(o.pushes)
-					if useAlias && o.aliasHot && !matchesSet(watch, p) {
+					if useAlias && o.aliasHot && !direct[j] {
 						hot = true // general form of completeness (C10_scan_complete_hot), exact filters only
 					}
 					if hot && flagAllows(flags, o.upd) {
@@ -851,7 +857,8 @@ type scanReplay struct {
 	Order    string      `json:"order,omitempty"`
 	Filter   fParams     `json:"filter"`
 	Watch    []string    `json:"watch"`
-	Txs      []string    `json:"txs"` // serialized transactions, in block order
+	Txs      []string    `json:"txs,omitempty"` // serialized transactions, in block order
+	Gen      *genSpec    `json:"generated,omitempty"` // wide scenarios: regenerated from these parameters instead of Txs
 	Observed interface{} `json:"observed,omitempty"`
 	Required interface{} `json:"required,omitempty"`
 }
@@ -872,6 +879,11 @@ func hexList(w [][]byte) []string {
 
 func mkReplay(kind, family, order string, p fParams, watch [][]byte, txs []*wire.MsgTx, observed, required interface{}) scanReplay {
 	rp := scanReplay{Kind: kind, Family: family, Order: order, Filter: p, Watch: hexList(watch), Observed: observed, Required: required}
+	if curGen != nil { // the transactions are too large to print: the replay names the generator parameters and describes them
+		g := *curGen
+		rp.Gen = &g
+		return rp
+	}
 	for _, t := range txs {
 		rp.Txs = append(rp.Txs, rawTx(t))
 	}
@@ -962,6 +974,15 @@ func distinctIDs(txs []*wire.MsgTx) bool {
 		seen[h] = true
 	}
 	return true
+}
+
+func containsInt(a []int, x int) bool {
+	for _, y := range a {
+		if y == x {
+			return true
+		}
+	}
+	return false
 }
 
 func sortedKeys(m map[int]bool) []int {
@@ -1111,7 +1132,7 @@ func checkScan(sc scenario, corr bool, costOnly bool) {
 					hot = true
 				}
 				if hot && flagAllows(sc.p.Flags, o.upd) {
-					ref.AddOutPoint(wire.NewOutPoint(&t.id, uint32(k)))
+					ref.Add(opBytes(&t.id, uint32(k))) // txid ++ LE32(index), serialised here
 				}
 			}
 		}
@@ -1120,22 +1141,53 @@ func checkScan(sc scenario, corr bool, costOnly bool) {
 				replay(map[string]interface{}{"matched": sortedKeys(res.matched)}, map[string]interface{}{"relevant": sortedKeys(rel)}))
 		}
 	}
-	// NewMerkleBlock reports the same indices, ascending
-	{
+	// the matched-INDEX lists of both merkle-block builders (the property's observation points): equal to
+	// GetMatchedIndices, ascending, and - on filters without false positives - equal to the relevance closure
+	// itself (index 0 / the coinbase position included)
+	for _, b := range []struct {
+		name, key string
+		call      func(*bchutil.Block, *bloom.Filter) (*wire.MsgMerkleBlock, []uint32)
+	}{
+		{"bloom.NewMerkleBlock", "C10:scan:merkleblock", bloom.NewMerkleBlock},
+		{"merkleblock.NewMerkleBlockWithFilter", "C10:scan:merkleblock_withfilter", merkleblock.NewMerkleBlockWithFilter},
+	} {
 		f := cloneFilter(sc.p, f0)
 		var idxs []uint32
-		if p, msg := vh.Catch(func() { _, idxs = bloom.NewMerkleBlock(mkBlock(sc.txs), f) }); p {
-			rep.Violate("C10:scan:panic", "NewMerkleBlock panicked", replay(map[string]interface{}{"panic": msg}, nil))
-		} else {
-			var a []int
-			for _, x := range idxs {
-				a = append(a, int(x))
-			}
-			if fmt.Sprint(a) != fmt.Sprint(sortedKeys(res.matched)) {
-				rep.Violate("C10:scan:merkleblock", "NewMerkleBlock's matched indices differ from GetMatchedIndices",
-					replay(map[string]interface{}{"merkleblock": a, "matched": sortedKeys(res.matched)}, nil))
+		var mb *wire.MsgMerkleBlock
+		if p, msg := vh.Catch(func() { mb, idxs = b.call(mkBlock(sc.txs), f) }); p {
+			rep.Violate("C10:scan:panic", b.name+" panicked", replay(map[string]interface{}{"panic": msg, "builder": b.name}, nil))
+			continue
+		}
+		a := []int{}
+		for _, x := range idxs {
+			a = append(a, int(x))
+		}
+		if fmt.Sprint(a) != fmt.Sprint(append([]int{}, sortedKeys(res.matched)...)) {
+			rep.Violate(b.key, b.name+"'s matched-index list differs from GetMatchedIndices (ascending)",
+				replay(map[string]interface{}{"builder": b.name, "index_list": a, "matched": sortedKeys(res.matched)}, nil))
+		}
+		for i := range sc.txs {
+			if rel[i] && !containsInt(a, i) {
+				rep.Violate(b.key+":complete", "a transaction relevant to the loaded filter (exact-set closure) is missing from "+b.name+"'s matched-index list",
+					replay(map[string]interface{}{"builder": b.name, "index_list": a}, map[string]interface{}{"relevant": sortedKeys(rel), "missing": i}))
+				break
 			}
 		}
+		if sc.p.exact() && !sc.alias && fmt.Sprint(a) != fmt.Sprint(append([]int{}, sortedKeys(rel)...)) {
+			rep.Violate(b.key+":exact", "with a filter without false positives "+b.name+"'s matched-index list differs from the relevance closure",
+				replay(map[string]interface{}{"builder": b.name, "index_list": a}, map[string]interface{}{"relevant": sortedKeys(rel)}))
+		}
+		if mb != nil && int(mb.Transactions) != n {
+			rep.Violate(b.key, b.name+": the message's transaction count differs from the block's",
+				replay(map[string]interface{}{"builder": b.name, "transactions": mb.Transactions}, map[string]interface{}{"transactions": n}))
+		}
+		if !bytes.Equal(filterBytes(f), res.final) {
+			rep.Violate(b.key, b.name+" leaves the filter in a different state than GetMatchedIndices on the same block",
+				replay(map[string]interface{}{"builder": b.name}, nil))
+		}
+	}
+	if rel[0] {
+		stats["scans_with_first_transaction_relevant"]++
 	}
 
 	if corr {
@@ -1189,6 +1241,42 @@ func checkMatch(p fParams, watch [][]byte, m *wire.MsgTx, corr bool, kind string
 	if !bytes.Equal(filterBytes(ref), f1) {
 		rep.Violate("C10:match:update", "after MatchTxAndUpdate the filter is not the initial filter plus the outpoints of the matching outputs the update flag prescribes",
 			replay(map[string]interface{}{"filter_after": vh.Hex(f1)}, map[string]interface{}{"filter_after": vh.Hex(filterBytes(ref))}))
+	}
+	// on a filter without false positives: the result is the four-way disjunction over the EXACT watch set and the
+	// filter afterwards is the initial one plus txid ++ LE32(k) for every output k that carries a watched push and
+	// whose class the flag lets be inserted - both computed here without the filter's own outpoint entry points
+	if p.exact() {
+		ws := itemSet{}
+		for _, x := range watch {
+			ws[string(x)] = true
+		}
+		a := absFromMsg(m)
+		selfAlias := false // an output push equal to one of the transaction's own outpoints (not generated; replay safety)
+		for _, o := range a.outs {
+			for _, d := range o.pushes {
+				if len(d) == 36 && bytes.Equal(d[:32], a.id[:]) {
+					selfAlias = true
+				}
+			}
+		}
+		if want2 := matchesSet(ws, a); want2 != r {
+			rep.Violate("C10:match:exact", "on a filter without false positives MatchTxAndUpdate's result differs from the four-way disjunction over the exact watch set (outpoints serialised as txid ++ LE32 index)",
+				replay(map[string]interface{}{"result": r}, map[string]interface{}{"result": want2}))
+		}
+		if !selfAlias {
+			ref2 := cloneFilter(p, f0)
+			var ins []string
+			for k, o := range a.outs {
+				if !o.err && ws.hasAny(o.pushes) && flagAllows(p.Flags, o.upd) {
+					ref2.Add(opBytes(&a.id, uint32(k)))
+					ins = append(ins, fmt.Sprint(k))
+				}
+			}
+			if !bytes.Equal(filterBytes(ref2), f1) {
+				rep.Violate("C10:match:update", "after MatchTxAndUpdate the filter is not the initial filter plus the outpoints of the matching outputs the update flag prescribes",
+					replay(map[string]interface{}{"filter_after_differs": true}, map[string]interface{}{"outpoints_inserted_for_outputs": ins, "serialisation": "txid ++ LE32(output index)"}))
+			}
+		}
 	}
 	// bits are only ever added
 	for i := range f0 {
@@ -1362,6 +1450,185 @@ func permutations(n int) [][]int {
 	return out
 }
 
+// ---------------------------------------------------------------- coinbase-shaped and wide transactions
+func coinbaseTx(r *vh.RNG, w *wallet, own int) *gTx {
+	m := wire.NewMsgTx(1)
+	d1, d2 := r.Bytes(3), r.Bytes(8)
+	sig := gScript{cat(push(d1), push(d2)), [][]byte{d1, d2}, false, false, "coinbase"}
+	if r.Intn(4) == 0 { // arbitrary coinbase bytes that do not parse as a script
+		sig = gScript{cat(push(d1), []byte{0x4d, 0xff}), nil, true, false, "coinbase-unparsable"}
+	}
+	m.AddTxIn(wire.NewTxIn(&wire.OutPoint{Index: 0xffffffff}, sig.script))
+	t := &gTx{msg: m, ins: []gScript{sig}}
+	for k := 1 + r.Intn(2); k > 0; k-- {
+		o := genOutScript(r, w, vh.Pick(r, []string{"p2pkh", "p2pk", "p2pkh", "nulldata"}), own)
+		t.outs = append(t.outs, o)
+		m.AddTxOut(wire.NewTxOut(int64(50e8), o.script, wire.TokenData{}))
+	}
+	m.LockTime = r.U32()
+	t.id = m.TxHash()
+	return t
+}
+
+// genSpec names a generated wide scenario (see buildGen); the replay carries it instead of megabytes of hex
+type genSpec struct {
+	Name     string                 `json:"name"` // wide-out | wide-in | wide-block
+	N        int                    `json:"n"`    // outputs of the wide transaction / inputs / transactions of the block
+	Variant  int                    `json:"variant"`
+	Seed     uint64                 `json:"seed"`
+	Order    string                 `json:"order"`
+	Flags    uint8                  `json:"flags"`
+	Describe map[string]interface{} `json:"describe,omitempty"`
+}
+
+var curGen *genSpec
+
+var emptyScript = gScript{[]byte{}, [][]byte{}, false, false, "empty"}
+
+// buildGen: deterministic in g.  All filters are exact (8192 bytes, 12 hash functions).
+//
+//	wide-out    W has N outputs, all empty scripts except the LAST (variant&2: also output 0), which pays the wallet
+//	            (variant&1: pay-to-pubkey, else pay-to-pubkey-hash).  Children (foreign material only) spend (W, N-1) -
+//	            relevant when the flag lets the outpoint be inserted - and, as decoys, (W, (N-1) mod 2^16),
+//	            (W, (N-1) mod 2^8), (W, N-2), (W, N) and an EXTERNAL outpoint with index N-1.
+//	wide-in     P pays the wallet with output 1; C has N inputs (fillers spend (X, position)), the LAST spends (P,1)
+//	            (variant&1: position N/2; variant&2: instead, its signature script pushes a watched tag).
+//	wide-block  N transactions: R pays the wallet, S spends R's output; variant 0: S first, R last; variant 1: R first
+//	            (index 0), S last; everything in between is foreign.
+func buildGen(g *genSpec) scenario {
+	r := vh.NewRNG(g.Seed)
+	w := newWallet(r)
+	var built []*gTx
+	desc := map[string]interface{}{}
+	switch g.Name {
+	case "wide-out":
+		shape := "p2pkh"
+		if g.Variant&1 == 1 {
+			shape = "p2pk"
+		}
+		hot := map[int]bool{g.N - 1: true}
+		if g.Variant&2 != 0 {
+			hot[0] = true
+		}
+		m := wire.NewMsgTx(1)
+		var h chainhash.Hash
+		copy(h[:], r.Bytes(32))
+		m.AddTxIn(wire.NewTxIn(&wire.OutPoint{Hash: h, Index: 0}, []byte{}))
+		W := &gTx{msg: m, ins: []gScript{emptyScript}, outs: make([]gScript, 0, g.N)}
+		for i := 0; i < g.N; i++ {
+			o := emptyScript
+			if hot[i] {
+				o = genOutScript(r, w, shape, 10)
+			}
+			W.outs = append(W.outs, o)
+			m.AddTxOut(wire.NewTxOut(1, o.script, wire.TokenData{}))
+		}
+		m.LockTime = r.U32()
+		W.id = m.TxHash()
+		built = append(built, W)
+		last := g.N - 1
+		var spent []string
+		seen := map[int]bool{}
+		for _, d := range []int{last, last % 65536, last % 256, last - 1, last + 1, last - 65536, last - 256} {
+			if d < 0 || seen[d] || (d != last && hot[d]) {
+				continue
+			}
+			seen[d] = true
+			built = append(built, buildTx(r, w, built, []prevRef{{0, uint32(d)}}, 1, 0, "p2pkh"))
+			spent = append(spent, fmt.Sprintf("tx %d spends (W,%d)", len(built)-1, d))
+		}
+		built = append(built, buildTx(r, w, built, []prevRef{{-1, uint32(last)}}, 1, 0, "p2pkh"))
+		desc["W"] = map[string]interface{}{"txid": W.id.String(), "outputs": g.N, "outputs_paying_the_wallet": sortedKeys(hot), "script_shape": shape, "serialised_bytes": m.SerializeSize()}
+		desc["creation_order"] = append([]string{"tx 0 = W"}, append(spent, fmt.Sprintf("tx %d spends an external outpoint with index %d", len(built)-1, last))...)
+	case "wide-in":
+		P := buildTx(r, w, nil, []prevRef{{-1, 0}}, 2, 10, "p2pkh")
+		built = append(built, P)
+		pos := g.N - 1
+		if g.Variant&1 == 1 {
+			pos = g.N / 2
+		}
+		m := wire.NewMsgTx(1)
+		var x chainhash.Hash
+		copy(x[:], r.Bytes(32))
+		C := &gTx{msg: m, ins: make([]gScript, 0, g.N)}
+		for i := 0; i < g.N; i++ {
+			op := wire.OutPoint{Hash: x, Index: uint32(i)}
+			sig := emptyScript
+			if i == pos {
+				if g.Variant&2 != 0 {
+					sig = gScript{cat(push(w.tags[0]), []byte{0x51}), [][]byte{w.tags[0]}, false, false, "tag"}
+				} else {
+					op = wire.OutPoint{Hash: P.id, Index: 1}
+				}
+			}
+			C.ins = append(C.ins, sig)
+			m.AddTxIn(wire.NewTxIn(&op, sig.script))
+		}
+		o := genOutScript(r, w, "p2pkh", 0)
+		C.outs = []gScript{o}
+		m.AddTxOut(wire.NewTxOut(1, o.script, wire.TokenData{}))
+		m.LockTime = r.U32()
+		C.id = m.TxHash()
+		built = append(built, C)
+		desc["C"] = map[string]interface{}{"txid": C.id.String(), "inputs": g.N, "relevant_input_position": pos, "relevant_because": map[bool]string{false: "spends (P,1), P's output paying the wallet", true: "its signature script pushes a watched tag"}[g.Variant&2 != 0], "serialised_bytes": m.SerializeSize()}
+		desc["creation_order"] = []string{"tx 0 = P", "tx 1 = C"}
+	case "wide-block":
+		R := buildTx(r, w, nil, []prevRef{{-1, 0}}, 1, 10, vh.Pick(r, []string{"p2pkh", "p2pk"}))
+		S := buildTx(r, w, []*gTx{R}, []prevRef{{0, 0}}, 1, 0, "p2pkh")
+		first, last := S, R
+		if g.Variant&1 == 1 {
+			first, last = R, S
+		}
+		built = append(built, first)
+		for i := 0; i < g.N-2; i++ {
+			m := wire.NewMsgTx(1)
+			var x chainhash.Hash
+			copy(x[:], r.Bytes(32))
+			m.AddTxIn(wire.NewTxIn(&wire.OutPoint{Hash: x, Index: uint32(i)}, []byte{}))
+			o := genOutScript(r, w, "p2pkh", 0)
+			m.AddTxOut(wire.NewTxOut(1, o.script, wire.TokenData{}))
+			built = append(built, &gTx{msg: m, id: m.TxHash(), outs: []gScript{o}, ins: []gScript{emptyScript}})
+		}
+		built = append(built, last)
+		desc["block"] = map[string]interface{}{"transactions": len(built), "R_pays_the_wallet_at_position": map[bool]int{false: len(built) - 1, true: 0}[g.Variant&1 == 1],
+			"S_spends_R_output_0_at_position": map[bool]int{true: len(built) - 1, false: 0}[g.Variant&1 == 1], "R": R.id.String(), "S": S.id.String()}
+	default:
+		vh.Must(fmt.Errorf("unknown generated scenario %q", g.Name))
+	}
+	ptx := built
+	if g.Order != "as-built" {
+		ptx = permute(r, built, g.Order)
+		var pos []string
+		for _, t := range ptx {
+			for j, b := range built {
+				if b == t {
+					pos = append(pos, fmt.Sprint(j))
+				}
+			}
+		}
+		desc["block_order_by_creation_index"] = strings.Join(pos, ",")
+	}
+	g.Describe = desc
+	watch := append(append([][]byte{}, w.h160...), w.pubs...)
+	watch = append(watch, w.tags[0])
+	return scenario{family: g.Name, order: g.Order, p: fParams{Size: 8192, K: 12, Tweak: uint32(g.Seed), Flags: g.Flags, Loaded: true},
+		watch: watch, txs: msgs(ptx), abs: absList(ptx)}
+}
+
+func runGen(g genSpec, kind string) {
+	sc := buildGen(&g)
+	curGen = &g
+	defer func() { curGen = nil }()
+	rep.Count("gen:"+g.Name+fmt.Sprintf(":%d", g.N), "", false)
+	if kind == "match" {
+		for _, m := range sc.txs[:1] { // the wide transaction on its own
+			checkMatch(sc.p, sc.watch, m, false, g.Name)
+		}
+		return
+	}
+	checkScan(sc, false, false)
+}
+
 // ---------------------------------------------------------------- replay
 func runReplay(path string) {
 	raw, err := os.ReadFile(path)
@@ -1373,6 +1640,10 @@ func runReplay(path string) {
 	in := outer.Input
 	if in.Kind == "" {
 		vh.Must(json.Unmarshal(raw, &in))
+	}
+	if in.Gen != nil {
+		runGen(*in.Gen, in.Kind)
+		return
 	}
 	var txs []*wire.MsgTx
 	for _, h := range in.Txs {
@@ -1517,6 +1788,125 @@ func main() {
 			sc := scenario{family: fam, order: ord, p: p, watch: watch, txs: msgs(ptx), abs: absList(ptx), alias: alias}
 			corr := !cfg.Search && p.Size <= 256 && (i%scanCorr == 0 || (alias && oi < 2)) && (oi == i%4 || oi == (i+1)%4 && i%2 == 0)
 			checkScan(sc, corr, false)
+		}
+	}
+
+	// --- coinbase position: a coinbase-shaped first transaction (null outpoint, index 2^32-1) that pays the wallet, a
+	// later transaction spending it; the first transaction keeps its place in every order
+	r = rng.Fork("coinbase")
+	ncb := cfg.Scale(40, 400)
+	if cfg.Search {
+		ncb = 1500
+	}
+	for i := 0; i < ncb; i++ {
+		w := newWallet(r)
+		cb := coinbaseTx(r, w, vh.Pick(r, []int{10, 10, 0}))
+		rest := genDAG(r, w, vh.Pick(r, families), 1+r.Intn(6), 2+r.Intn(7))
+		all := append([]*gTx{cb}, rest...)
+		for k := r.Intn(3); k > 0; k-- { // spenders of the coinbase outputs
+			all = append(all, buildTx(r, w, all, []prevRef{{0, uint32(r.Intn(len(cb.outs) + 1))}}, 1+r.Intn(2), vh.Pick(r, []int{0, 0, 8}), ""))
+		}
+		selfCheckOracle(all)
+		watch := genWatch(r, w, all)
+		if i%5 == 0 { // the null outpoint itself is watched: the coinbase is relevant through "spends a watched outpoint"
+			watch = append(watch, opBytes(&chainhash.Hash{}, 0xffffffff))
+		}
+		if i%7 == 3 { // ONLY the first transaction is relevant
+			watch = [][]byte{cb.id[:]}
+		}
+		p := genParams(r, vh.Pick(r, flagChoices))
+		for oi, ord := range orders {
+			var ptx []*gTx
+			if ord == "ctor" { // permute keeps the first transaction in place and sorts the rest
+				ptx = permute(r, all, ord)
+			} else {
+				ptx = append([]*gTx{cb}, permute(r, all[1:], ord)...)
+			}
+			sc := scenario{family: "coinbase-first", order: ord, p: p, watch: watch, txs: msgs(ptx), abs: absList(ptx)}
+			checkScan(sc, !cfg.Search && p.Size <= 256 && i%4 == 0 && oi == i%4, false)
+		}
+	}
+
+	// --- outpoint index values around 2^8, 2^16, 2^24, 2^31 and 2^32-1: a transaction that is relevant ONLY because it
+	// spends a watched outpoint (txid ++ LE32 index, serialised here), and decoys that spend the same txid at the
+	// index truncated / sign-flipped / byte-swapped (exact filter: the decoys must not match)
+	r = rng.Fork("opindex")
+	edgeIdx := []uint32{0, 1, 0xff, 0x100, 0x101, 0xffff, 0x10000, 0x10001, 0xffffff, 0x1000000, 0x7fffffff, 0x80000000, 0x80000001, 0xfffffffe, 0xffffffff, 0x01020304, 0x00010000, 0x00010100}
+	for rnd := 0; rnd < cfg.Scale(1, 4); rnd++ {
+		for _, idx := range append(edgeIdx, r.U32(), 0x10000+uint32(r.Intn(0x10000))) {
+			w := newWallet(r)
+			var h chainhash.Hash
+			copy(h[:], r.Bytes(32))
+			mk := func(i uint32) *gTx {
+				m := wire.NewMsgTx(1)
+				m.AddTxIn(wire.NewTxIn(&wire.OutPoint{Hash: h, Index: i}, []byte{}))
+				o := genOutScript(r, w, "p2pkh", 0)
+				m.AddTxOut(wire.NewTxOut(1000, o.script, wire.TokenData{}))
+				m.LockTime = r.U32()
+				return &gTx{msg: m, id: m.TxHash(), outs: []gScript{o}, ins: []gScript{{[]byte{}, [][]byte{}, false, false, "empty"}}}
+			}
+			txs := []*gTx{mk(idx)}
+			seen := map[uint32]bool{idx: true}
+			for _, d := range []uint32{idx & 0xffff, idx & 0xff, idx ^ 0x80000000, idx<<24 | idx>>24 | (idx&0xff00)<<8 | (idx>>8)&0xff00, idx + 1, idx - 1, idx | 0x10000, idx + 0x10000} {
+				if !seen[d] {
+					seen[d] = true
+					txs = append(txs, mk(d))
+				}
+			}
+			watch := [][]byte{opBytes(&h, idx)}
+			for _, fl := range []uint8{1, 0} {
+				p := fParams{Size: 8192, K: 12, Tweak: r.U32(), Flags: fl, Loaded: true}
+				for _, t := range txs {
+					checkMatch(p, watch, t.msg, false, "opindex")
+				}
+				for _, ord := range []string{"topological", "reverse"} {
+					ptx := permute(r, txs, ord)
+					checkScan(scenario{family: "opindex", order: ord, p: p, watch: watch, txs: msgs(ptx), abs: absList(ptx)}, false, false)
+				}
+			}
+		}
+	}
+
+	// --- wide transactions and blocks: output / input / transaction counts around 2^8 and 2^16 with the relevant
+	// output (input, transaction) LAST, spenders of the real outpoint and of its truncations (regenerated from
+	// parameters on replay: the transactions are up to 3 MB)
+	r = rng.Fork("wide")
+	type wplan struct {
+		name     string
+		ns       []int
+		variants int
+	}
+	plans := []wplan{{"wide-out", []int{255, 256, 257, 65537}, 2}, {"wide-in", []int{256, 257}, 2}, {"wide-block", []int{257}, 2}}
+	if wide {
+		plans = []wplan{{"wide-out", []int{2, 255, 256, 257, 258, 300, 65535, 65536, 65537, 65538, 70000, 131073}, 4},
+			{"wide-in", []int{255, 256, 257, 300, 65536, 65537}, 4}, {"wide-block", []int{255, 256, 257, 300}, 2}}
+	}
+	if cfg.Search {
+		plans = append(plans, wplan{"wide-block", []int{65535, 65536, 65537}, 2})
+	}
+	for _, pl := range plans {
+		for _, n := range pl.ns {
+			for v := 0; v < pl.variants; v++ {
+				for _, fl := range []uint8{1, 2, 0} {
+					if fl == 0 && v > 0 {
+						continue
+					}
+					ords := []string{"topological", "reverse", "random"}
+					if pl.name == "wide-block" {
+						ords = []string{"as-built"}
+					}
+					if !wide {
+						ords = ords[:1+len(ords)/2] // quick tier: topological + reverse
+					}
+					seed := r.U64()
+					for _, ord := range ords {
+						runGen(genSpec{Name: pl.name, N: n, Variant: v, Seed: seed, Order: ord, Flags: fl}, "scan")
+					}
+					if pl.name == "wide-out" {
+						runGen(genSpec{Name: pl.name, N: n, Variant: v, Seed: seed, Order: "topological", Flags: fl}, "match")
+					}
+				}
+			}
 		}
 	}
 
